@@ -1001,6 +1001,55 @@ func (e *Env) trCall(n *ECall) Val {
 		}
 		u.regHeap(g, "Int")
 		return Val{T: u.heapCur(e.cur, g), S: "Int", Ty: intT}
+	case "samefields": // samefields(a, b, "F1", ...): a and b (pointers to the same struct type) agree on every exported field except the listed ones
+		if len(n.Args) < 2 {
+			e.fail("samefields(a, b, \"Except\"...)")
+		}
+		a, b := e.tr(n.Args[0]), e.tr(n.Args[1])
+		pa, ok := types.Unalias(a.Ty).Underlying().(*types.Pointer)
+		if !ok {
+			e.fail("samefields needs pointers to a struct")
+		}
+		stt, ok := pa.Elem().Underlying().(*types.Struct)
+		if !ok {
+			e.fail("samefields needs pointers to a struct")
+		}
+		skip := map[string]bool{}
+		for _, x := range n.Args[2:] {
+			sx, ok := x.(*EStr)
+			if !ok {
+				e.fail("samefields: field names are string literals")
+			}
+			if _, found := findField(a.Ty, sx.V, 0); !found {
+				e.fail("samefields: no field %s in %s", sx.V, a.Ty)
+			}
+			skip[sx.V] = true
+		}
+		cs := []string{}
+		for i := 0; i < stt.NumFields(); i++ {
+			f := stt.Field(i)
+			if !f.Exported() || skip[f.Name()] {
+				continue
+			}
+			cs = append(cs, eq(e.field(a, f.Name()).T, e.field(b, f.Name()).T))
+		}
+		if len(cs) == 0 {
+			e.fail("samefields: no field left to compare")
+		}
+		return Val{T: and(cs...), S: "Bool", Ty: types.Typ[types.Bool]}
+	case "allocsince": // allocsince("pat", x): the object x refers to (a slice's backing array) was allocated after the last call matching pat returned
+		s, ok := n.Args[0].(*EStr)
+		if !ok || len(n.Args) != 2 {
+			e.fail("allocsince(\"pattern\", x)")
+		}
+		g := "$count:allocat:" + s.V
+		u.regHeap(g, "Int")
+		a := e.tr(n.Args[1])
+		t := a.T
+		if a.S == "Slice" {
+			t = app("sl_base", a.T)
+		}
+		return Val{T: app(">", t, u.heapCur(e.cur, g)), S: "Bool", Ty: types.Typ[types.Bool]}
 	case "alloc":
 		return Val{T: u.heapCur(e.cur, "$alloc"), S: "Int", Ty: intT}
 	case "clock":
